@@ -194,7 +194,16 @@ func linearFinite(c *sqrun.Ctx, which string, n int) int {
 			h := make([]uint8, l)
 			var p int64
 			count++
-			if _, _, v := VisitFinite(cfg, h, which, &p); v != "" {
+			visit := func() (v string) {
+				defer func() {
+					if r := recover(); r != nil {
+						v = viol("panic", "FiniteReplayer(N=%d, autoIDs=%v) after %d x Put{a}: the code under test panicked: %v", n, auto, l, r)
+					}
+				}()
+				_, _, v = VisitFinite(cfg, h, which, &p)
+				return v
+			}
+			if v := visit(); v != "" {
 				sig, msg := SplitViol(v)
 				c.Rep.Add(sig, msg, func() string {
 					return ev.WriteReplay(c.Prop, fmt.Sprintf("finite-n%d-auto%v-linear-%s", n, auto, sig), replayFile{Property: c.Prop, Kind: "finite", Config: cfg,
